@@ -16,7 +16,7 @@ SHARDS = {"quick": 16, "thorough": 16}
 RULE = ("a bundle of 2-5 Sids (valid / edited / junk strings, 1 in 8 with an empty value, the same string forced to sibling types, equal Sids built through string, uri, "
         "fields, query and copy) and a sequence of 3-25 public operations on bundle members and on Sids derived from them (parent, get_as, get_with "
         "by keyword / key-value / query, copy, '/', get, fields, as_query, uri, path, match, is_leaf, is_search, children, siblings, exists, "
-        "keytype, basetype, len, repr, comparison, hashing, Sid(sid), Sid(fields=dict) with later mutation of the passed dict); every returned "
+        "keytype, basetype, len, repr, comparison, hashing, Sid(sid), copy.copy / copy.deepcopy / pickle round trip, Sid(fields=dict) with later mutation of the passed dict); every returned "
         "dict / list / derived Sid's fields is then mutated (clear, insert, append, item assignment). After every step every bundle Sid must still "
         "show its creation-time (str, type, fields, uri, hash) and equal a newly built Sid(uri); at the end the equality / hash / set / dict / "
         "sort laws are checked on all pairs. non-trivial = a returned container of a Sid whose string is shared by >= 2 bundle members was "
@@ -32,7 +32,7 @@ def _m():
 
 
 OPS = ["parent", "get_as", "get_with_kw", "get_with_kv", "get_with_query", "copy", "div", "get", "fields", "as_query", "uri", "path",
-       "match", "is_leaf", "is_search", "children", "siblings", "exists", "keytype", "len", "repr", "eq", "hash", "sid_of_sid",
+       "match", "is_leaf", "is_search", "children", "siblings", "exists", "keytype", "len", "repr", "eq", "hash", "sid_of_sid", "copy_copy", "deepcopy", "pickle",
        "sid_from_fields", "fields", "fields", "get_with_none"]
 
 
@@ -179,7 +179,12 @@ def evaluate(case) -> Outcome:
     derived = None
     touched_shared = False
 
+    empty0 = snap(Sid())
+
     def verify(where):
+        if snap(Sid()) != empty0 or snap(Sid("")) != empty0:
+            out.add("C14/empty-sid-changed", f"after {where}: Sid() is {snap(Sid())}, it was {empty0}")
+            return False
         for i, (sid, sn) in enumerate(zip(sids, snaps)):
             now = snap(sid)
             if now != sn:
@@ -219,6 +224,11 @@ def evaluate(case) -> Outcome:
                 res = target.get_with(query=arg["query"])
             elif op == "copy":
                 res = target.copy()
+            elif op in ("copy_copy", "deepcopy", "pickle"):
+                import copy as _copy, pickle as _pickle
+                res = _copy.copy(target) if op == "copy_copy" else _copy.deepcopy(target) if op == "deepcopy" else _pickle.loads(_pickle.dumps(target))
+                if not isinstance(res, Sid) or snap(res) != snap(target) or not (res == target):
+                    out.add(f"C14/{op}/differs", f"{op} of {target!r} ({snap(target)}) gave {res!r} ({snap(res) if isinstance(res, Sid) else res})")
             elif op == "div":
                 res = target / arg["value"]
             elif op == "get":
